@@ -1,164 +1,343 @@
 """Translate the tables and literals of fim.authz.attribute_collector.ResourceAuthZAttributes into Lean.
 
-Read by AST (anything else is an ExtractionError):
-  * class constants  NAME = "urn:..."                               -> inductive Key, Key.id
-  * ATTRIBUTE_TYPES_AND_CATEGORIES = {NAME: ("datatype", "category")} -> Key.dataType / Key.category (Option: a
-    constant without a row makes transform_to_pdp_request raise KeyError, which a theorem then reports)
-  * NSTYPE_LUT = {ServiceType.X: "urn:..."}                          -> nstypeLut : List (String × Key)
-  * __init__:  self._attributes[self.RESOURCE_TYPE] = ["sliver"]      -> initType
-  * _collect_attributes_from_node_sliver: `if sliver.get_type() == NodeType.T: self._attributes[self.RESOURCE_TYPE] = ["v"]`
-  * _collect_attributes_from_ns_sliver: the set literal of `sliver.resource_type in {...}`, the "UNKNOWN-SITE"
-    literal, the service type of the in-slice exemption (`sliver.resource_type == ServiceType.PortMirror`)
-  * transform_to_pdp_request: the CategoryId literals, in order
-The control flow of the collecting functions is mirrored by hand in Model/Authz.lean (checked differentially);
-the source-span hashes of those functions are reported so that it is visible what the mirrored text was.
+The extractor does not match source text.  It imports the class from the tree under check and reads
+
+  * the attribute-id constants: the string-valued public class attributes, in definition order, that name a row of
+    ATTRIBUTE_TYPES_AND_CATEGORIES or an attribute some probe below sees in `_attributes`   -> inductive Key, Key.id
+    (other string constants - a hoisted "UNKNOWN-SITE", say - are no attribute ids and are only reported);
+  * ATTRIBUTE_TYPES_AND_CATEGORIES as the dictionary it evaluates to                          -> Key.dataType / Key.category
+    (Option: an emitted attribute without a row makes transform_to_pdp_request raise KeyError, which a theorem reports);
+
+and *probes the behaviour* of the collecting fold on stand-in containers of real slivers (one fresh collector per probe):
+
+  * a fresh collector holds exactly {RESOURCE_TYPE: [v]}                                      -> initType
+  * one node of every NodeType: which types override RESOURCE_TYPE, with what, and that the override survives nodes
+    collected after it                                                                       -> switchNodeType, switchType
+  * one service of every ServiceType with a site: under which attribute (besides RESOURCE_SITE) the site is listed
+                                                                                              -> nstypeLut
+  * the same without a site                                                                   -> unknownSite
+  * the same with its mirrored port among the slice's ports: which type is exempt             -> mirrorType
+  * mirrored port x against in-slice port y over a family of related names (equal, prefix, extension, case, empty,
+    None): the exemption must be exact equality, which is what `s.mport ∈ inPorts` in Model/Authz.lean says
+  * transform_to_pdp_request on a fresh collector: the CategoryId values, in order            -> categories
+
+A probe that raises, or an answer outside the shape the model has a parameter for (two overriding node types, an
+exemption by prefix, ...) is an ExtractionError.  The control flow of the fold itself is mirrored by hand in
+Model/Authz.lean (checked differentially); the source-span hashes of the mirrored functions are reported so that it is
+visible what the mirrored text was.  Behaviour-preserving rewrites (helper extraction, `in self.NSTYPE_LUT`, categories
+hoisted into a module constant, cached get_peers(), getattr dispatch) leave the output unchanged.
 """
 import ast
+import importlib
+import os
+
 from .common import *
 
 REL = "fim/authz/attribute_collector.py"
 LOGREL = "fim/logging/log_collector.py"
 CLS = "ResourceAuthZAttributes"
+MODULE = "fim.authz.attribute_collector"
+
+PROBE_SITE = "PROBE-SITE"
+PROBE_PORT = "PROBE-PORT"
+# mirrored port / in-slice port pairs: related as strings, so that an in-slice test by prefix, suffix, substring,
+# case-folding or truthiness answers differently from exact membership on at least one pair
+PORT_PROBES = [None, "", "p1", "p10", "p", "P1", "p1.100", "1p", "HundredGigE0/0/0/1", "HundredGigE0/0/0/10"]
 
 
-def _const_str(node):
-    return isinstance(node, ast.Constant) and isinstance(node.value, str)
+def _load():
+    try:
+        m = importlib.import_module(MODULE)
+    except Exception as e:
+        raise ExtractionError("%s cannot be imported: %s: %s" % (MODULE, type(e).__name__, e))
+    here = os.path.realpath(getattr(m, "__file__", "") or "")
+    want = os.path.realpath(os.path.join(REPO, REL))
+    if here != want:
+        raise ExtractionError("%s was imported from %s, not from the tree under check (%s)" % (MODULE, here, want))
+    cls = getattr(m, CLS, None)
+    if cls is None:
+        raise ExtractionError("class %s not found" % CLS)
+    return m, cls
 
 
-def _self_attr_key(node):
-    """self._attributes[self.NAME] -> NAME"""
-    if (isinstance(node, ast.Subscript) and isinstance(node.value, ast.Attribute) and node.value.attr == "_attributes"
-            and isinstance(node.slice, ast.Attribute) and isinstance(node.slice.value, ast.Name) and node.slice.value.id == "self"):
-        return node.slice.attr
-    return None
+# ---- stand-in containers: the views _collect_attributes_from_topo reads, over real slivers
+
+class _El:
+    def __init__(self, sliver, name):
+        self._s, self.name = sliver, name
+
+    def get_sliver(self):
+        return self._s
 
 
-def _enum_member(node, enum):
-    if isinstance(node, ast.Attribute) and isinstance(node.value, ast.Name) and node.value.id == enum:
-        return node.attr
-    return None
+class _Peer:
+    def __init__(self, labels):
+        self.labels = labels
+
+
+class _If:
+    def __init__(self, local_name):
+        self._ln = local_name
+
+    def get_peers(self):
+        from fim.slivers.capacities_labels import Labels
+        return [_Peer(Labels(local_name=self._ln) if self._ln is not None else Labels())]
+
+
+class _Topo:
+    def __init__(self, nodes=(), svcs=(), inports=None):
+        self.nodes = {"n%d" % i: _El(s, "n%d" % i) for i, s in enumerate(nodes)}
+        self.network_services = {"s%d" % i: _El(s, "s%d" % i) for i, s in enumerate(svcs)}
+        self.facilities = {}
+        self.interface_list = tuple(_If(p) for p in (inports if inports is not None else ()))
+
+
+_NONE = object()
+
+
+def _node(ntype):
+    from fim.slivers.network_node import NodeSliver
+    s = NodeSliver()
+    s.set_name("probe-node")
+    s.set_type(ntype)
+    return s
+
+
+def _svc(stype, site=PROBE_SITE, mport=PROBE_PORT):
+    from fim.slivers.network_service import NetworkServiceSliver
+    s = NetworkServiceSliver()
+    s.set_name("probe-svc")
+    s.set_type(stype)
+    if site is not None:
+        s.set_site(site)
+    if mport is not _NONE:
+        s.set_mirror_port(mport)
+    return s
+
+
+def _run(cls, what, **kw):
+    """attributes (a plain dict of lists) of a fresh collector after the fold over a stand-in slice"""
+    try:
+        az = cls()
+        az._collect_attributes_from_topo(_Topo(**kw))
+        return {k: list(v) for k, v in az._attributes.items()}
+    except ExtractionError:
+        raise
+    except Exception as e:
+        raise ExtractionError("probe '%s' raised %s: %s" % (what, type(e).__name__, e))
+
+
+def _one_str(v, what):
+    if not (isinstance(v, list) and len(v) == 1 and isinstance(v[0], str)):
+        raise ExtractionError("%s is not a one-element list of a string: %r" % (what, v))
+    return v[0]
+
+
+def _hashes():
+    """source-span hashes of the hand-mirrored functions (reported only; a function that is gone reads 'absent')"""
+    def h(rel, cname, names):
+        out = {}
+        try:
+            tree, src = parse(rel)
+            c = find_class(tree, cname)
+        except ExtractionError:
+            return {n: "absent" for n in names}
+        for n in names:
+            try:
+                out[n] = span_hash(src, find_func(c, n))
+            except ExtractionError:
+                out[n] = "absent"
+        return out
+    a = h(REL, CLS, ["_collect_attributes_from_node_sliver", "_collect_attributes_from_ns_sliver", "_collect_attributes_from_topo",
+                     "transform_to_pdp_request"])
+    log = h(LOGREL, "LogCollector", ["_collect_attributes_from_node_sliver", "_collect_attributes_from_ns_sliver",
+                                     "_collect_attributes_from_component_sliver", "_collect_attributes_from_topo"])
+    return dict(node_sliver=a["_collect_attributes_from_node_sliver"], ns_sliver=a["_collect_attributes_from_ns_sliver"],
+                topo=a["_collect_attributes_from_topo"], pdp=a["transform_to_pdp_request"], log=log)
 
 
 def extract():
-    tree, src = parse(REL)
-    cls = find_class(tree, CLS)
-    consts, order = {}, []
-    table, lut = None, None
-    for st in cls.body:
-        if isinstance(st, ast.Assign) and len(st.targets) == 1 and isinstance(st.targets[0], ast.Name):
-            name = st.targets[0].id
-            if _const_str(st.value):
-                if name in consts:
-                    raise ExtractionError("constant %s assigned twice" % name)
-                consts[name] = st.value.value
-                order.append(name)
-            elif name == "ATTRIBUTE_TYPES_AND_CATEGORIES":
-                table = st.value
-            elif name == "NSTYPE_LUT":
-                lut = st.value
-    # private numeric class constants (__SECONDS_IN_*) are not strings and are skipped above
-    if not order or table is None or lut is None:
-        raise ExtractionError("constants / ATTRIBUTE_TYPES_AND_CATEGORIES / NSTYPE_LUT not found in %s" % CLS)
+    parse(REL)      # a file that does not parse is an extraction error with a readable message
+    m, cls = _load()
+    from fim.slivers.network_node import NodeType
+    from fim.slivers.network_service import ServiceType
+
+    # string-valued public class attributes, in definition order
+    strconsts = [(k, v) for k, v in vars(cls).items() if not k.startswith("_") and isinstance(v, str)]
+    if not strconsts:
+        raise ExtractionError("no string constants in %s" % CLS)
     byval = {}
-    for n in order:
-        byval.setdefault(consts[n], []).append(n)
+    for k, v in strconsts:
+        byval.setdefault(v, []).append(k)
 
-    if not isinstance(table, ast.Dict):
-        raise ExtractionError("ATTRIBUTE_TYPES_AND_CATEGORIES is not a dict literal")
+    table = getattr(cls, "ATTRIBUTE_TYPES_AND_CATEGORIES", None)
+    if not isinstance(table, dict) or not table:
+        raise ExtractionError("ATTRIBUTE_TYPES_AND_CATEGORIES is not a non-empty dictionary")
+    rows_by_id = {}
+    for k, v in table.items():
+        if not isinstance(k, str):
+            raise ExtractionError("table key is not a string: %r" % (k,))
+        if not (isinstance(v, (tuple, list)) and len(v) == 2 and all(isinstance(e, str) for e in v)):
+            raise ExtractionError("table value for %s is not a (datatype, category) pair of strings" % k)
+        if k not in byval:
+            raise ExtractionError("table key %r is not the value of a class constant" % k)
+        rows_by_id[k] = (v[0], v[1])
+
+    observed = set()
+
+    # fresh collector
+    fresh = _run(cls, "fresh collector")
+    observed |= set(fresh)
+    if len(fresh) != 1:
+        raise ExtractionError("a fresh collector does not hold exactly one attribute: %r" % (fresh,))
+    type_id, v = next(iter(fresh.items()))
+    init_type = _one_str(v, "the initial resource type")
+
+    # node types: who overrides the resource type, and the override is kept whatever is collected afterwards
+    over = {}
+    for t in NodeType:
+        a = _run(cls, "one %s node" % t.name, nodes=[_node(t)])
+        observed |= set(a)
+        if set(a) != {type_id}:
+            raise ExtractionError("a bare %s node adds attributes %s" % (t.name, sorted(set(a) - {type_id})))
+        val = _one_str(a[type_id], "resource type after a %s node" % t.name)
+        if val != init_type:
+            over[t.name] = val
+    if len(over) != 1:
+        raise ExtractionError("node types overriding the resource type: %r (the model has exactly one)" % (over,))
+    sw = next(iter(over.items()))
+    for t in NodeType:
+        for order in ([NodeType[sw[0]], t], [t, NodeType[sw[0]]]):
+            a = _run(cls, "nodes %s" % [x.name for x in order], nodes=[_node(x) for x in order])
+            if a.get(type_id) != [sw[1]]:
+                raise ExtractionError("resource type of a slice with a %s node depends on the other nodes / their order: "
+                                      "%s gives %r" % (sw[0], [x.name for x in order], a.get(type_id)))
+
+    # service types: the attribute (besides the common site attribute) that lists the site
+    lut = []
+    per_type = {}
+    for t in ServiceType:
+        a = _run(cls, "one %s service at a site" % t.name, svcs=[_svc(t)])
+        observed |= set(a)
+        extra = {k: v for k, v in a.items() if k != type_id}
+        with_site = sorted(k for k, v in extra.items() if v == [PROBE_SITE])
+        if sorted(extra) != with_site:
+            raise ExtractionError("a bare %s service with a site adds %r" % (t.name, extra))
+        per_type[t.name] = with_site
+    common = set.intersection(*[set(v) for v in per_type.values()])
+    if len(common) != 1:
+        raise ExtractionError("attributes listing the site of every service: %r (expected exactly one)" % sorted(common))
+    site_id = next(iter(common))
+    for t in ServiceType:
+        own = [k for k in per_type[t.name] if k != site_id]
+        if len(own) > 1:
+            raise ExtractionError("a %s service lists its site under several attributes: %r" % (t.name, own))
+        if own:
+            names = byval.get(own[0])
+            if not names:
+                # the attribute id used for this service type has no constant, hence no category row
+                raise ExtractionError("site attribute %r of %s services is not one of the attribute constants" % (own[0], t.name))
+            lut.append((t.name, names[0], own[0]))
+    if not lut:
+        raise ExtractionError("no service type lists its site under an attribute of its own")
+
+    # unknown-site literal
+    unknown = set()
+    for tname, _, kid in lut:
+        a = _run(cls, "one %s service without site" % tname, svcs=[_svc(ServiceType[tname], site=None)])
+        extra = {k: v for k, v in a.items() if k != type_id}
+        if set(extra) != {kid}:
+            raise ExtractionError("a %s service without site gives %r" % (tname, extra))
+        unknown.add(_one_str(extra[kid], "placeholder site of a %s service" % tname))
+    if len(unknown) != 1:
+        raise ExtractionError("placeholder sites differ between service types: %r" % sorted(unknown))
+    unknown = unknown.pop()
+
+    # exemption: which listed type does not list its site when its mirrored port is a port of the slice
+    exempt = []
+    for tname, _, kid in lut:
+        a = _run(cls, "one %s service mirroring an in-slice port" % tname, svcs=[_svc(ServiceType[tname])], inports=[PROBE_PORT])
+        if kid not in a:
+            if a.get(site_id) != [PROBE_SITE]:
+                raise ExtractionError("an exempt %s service does not list its site under the common attribute" % tname)
+            exempt.append(tname)
+        elif a[kid] != [PROBE_SITE]:
+            raise ExtractionError("a %s service mirroring an in-slice port gives %r" % (tname, a[kid]))
+    if len(exempt) != 1:
+        raise ExtractionError("service types with the in-slice exemption: %r (the model has exactly one)" % (exempt,))
+    ex_t = ServiceType[exempt[0]]
+    ex_id = [kid for tname, _, kid in lut if tname == exempt[0]][0]
+    # ... and "is a port of the slice" is exact equality of the names
+    for y in PORT_PROBES:
+        for x in PORT_PROBES:
+            a = _run(cls, "mirror of %r with in-slice port %r" % (x, y), svcs=[_svc(ex_t, mport=x)], inports=[y])
+            is_exempt = ex_id not in a
+            if is_exempt != (x == y):
+                raise ExtractionError("the in-slice test of the %s exemption is not exact membership: a mirror of port %r "
+                                      "with in-slice port %r is %s" % (exempt[0], x, y, "exempt" if is_exempt else "listed"))
+    # several in-slice ports, the mirrored one not the first
+    a = _run(cls, "mirror with several in-slice ports", svcs=[_svc(ex_t, mport="p1")], inports=["p10", "p", "p1"])
+    if ex_id in a:
+        raise ExtractionError("a mirrored port that is the last of several in-slice ports is not exempt")
+
+    # categories of the request, in order
+    try:
+        req = cls().transform_to_pdp_request(as_json=False)
+        cats = [c["CategoryId"] for c in req["Request"]["Category"]]
+    except Exception as e:
+        raise ExtractionError("transform_to_pdp_request on a fresh collector: %s: %s" % (type(e).__name__, e))
+    if len(cats) < 1 or not all(isinstance(c, str) for c in cats):
+        raise ExtractionError("no CategoryId values in the PDP request")
+
+    # other emitted attributes: the setters (outside the slice, but every one of them goes through the same table)
+    try:
+        from datetime import datetime, timedelta, timezone
+        az = cls()
+        az.set_lifetime(datetime.now(timezone.utc) + timedelta(days=2))
+        az.set_subject_attributes(subject_id="u", project=["p"], project_tag=["t"])
+        az.set_action("create")
+        az.set_resource_subject_and_project(subject_id="u", project="p")
+        observed |= set(az._attributes)
+    except Exception:
+        pass        # setter signatures are not this extractor's subject; the oracle's full request exercises them
+    # capacities, components, bandwidth, facilities
+    try:
+        from fim.slivers.capacities_labels import Capacities
+        from fim.slivers.attached_components import AttachedComponentsInfo, ComponentSliver, ComponentType
+        n = _node(NodeType.VM)
+        n.set_capacities(Capacities(core=1, ram=2, disk=3))
+        n.set_site(PROBE_SITE)
+        aci = AttachedComponentsInfo()
+        c = ComponentSliver()
+        c.set_name("probe-c")
+        c.set_type(next(iter(ComponentType)))
+        aci.add_device(c)
+        n.attached_components_info = aci
+        s = _svc(next(iter(ServiceType)))
+        s.set_capacities(Capacities(bw=1))
+        tp = _Topo(nodes=[n], svcs=[s])
+        tp.facilities = {"F": _El(None, "F")}
+        az = cls()
+        az._collect_attributes_from_topo(tp)
+        observed |= set(az._attributes)
+    except Exception as e:
+        raise ExtractionError("probe 'full node, service and facility' raised %s: %s" % (type(e).__name__, e))
+
+    for k in observed:
+        if k not in byval:
+            raise ExtractionError("emitted attribute id %r is not the value of a class constant" % (k,))
+    order = [k for k, v in strconsts if v in rows_by_id or v in observed]
+    ignored = [k for k, v in strconsts if k not in order]
+    consts = {k: v for k, v in strconsts if k in order}
     rows = {}
-    for k, v in zip(table.keys, table.values):
-        if not (isinstance(k, ast.Name) and k.id in consts):
-            raise ExtractionError("table key is not a class constant: %s" % ast.dump(k)[:100])
-        if not (isinstance(v, ast.Tuple) and len(v.elts) == 2 and all(_const_str(e) for e in v.elts)):
-            raise ExtractionError("table value for %s is not a (datatype, category) pair of literals" % k.id)
-        rows[k.id] = (v.elts[0].value, v.elts[1].value)
+    for k in order:
+        if consts[k] in rows_by_id:
+            rows[k] = rows_by_id[consts[k]]
+    type_names = byval[type_id]
 
-    if not isinstance(lut, ast.Dict):
-        raise ExtractionError("NSTYPE_LUT is not a dict literal")
-    lutrows = []
-    for k, v in zip(lut.keys, lut.values):
-        t = _enum_member(k, "ServiceType")
-        if t is None or not _const_str(v):
-            raise ExtractionError("NSTYPE_LUT entry not of the form ServiceType.X: 'urn'")
-        names = byval.get(v.value)
-        if not names:
-            # the attribute id used for this service type has no constant, hence no category row
-            raise ExtractionError("NSTYPE_LUT value %r is not one of the attribute constants" % v.value)
-        lutrows.append((t, names[0]))
-
-    # __init__
-    init = find_func(cls, "__init__")
-    init_type = None
-    for st in ast.walk(init):
-        if isinstance(st, ast.Assign) and len(st.targets) == 1 and _self_attr_key(st.targets[0]) == "RESOURCE_TYPE":
-            if isinstance(st.value, ast.List) and len(st.value.elts) == 1 and _const_str(st.value.elts[0]):
-                init_type = st.value.elts[0].value
-    if init_type is None:
-        raise ExtractionError("__init__ does not set RESOURCE_TYPE to a one-element literal list")
-
-    # node sliver: switch override
-    fn = find_func(cls, "_collect_attributes_from_node_sliver")
-    sw = None
-    for st in strip_doc(fn.body):
-        if (isinstance(st, ast.If) and isinstance(st.test, ast.Compare) and len(st.test.ops) == 1
-                and isinstance(st.test.ops[0], ast.Eq) and _enum_member(st.test.comparators[0], "NodeType")
-                and len(st.body) == 1 and isinstance(st.body[0], ast.Assign)
-                and _self_attr_key(st.body[0].targets[0]) == "RESOURCE_TYPE" and not st.orelse):
-            v = st.body[0].value
-            if isinstance(v, ast.List) and len(v.elts) == 1 and _const_str(v.elts[0]):
-                sw = (_enum_member(st.test.comparators[0], "NodeType"), v.elts[0].value)
-    if sw is None:
-        raise ExtractionError("node-type override of RESOURCE_TYPE not recognised")
-    node_hash = span_hash(src, fn)
-
-    # ns sliver
-    fn = find_func(cls, "_collect_attributes_from_ns_sliver")
-    listed, unknown, exempt = None, None, None
-    for st in ast.walk(fn):
-        if isinstance(st, ast.Compare) and len(st.ops) == 1:
-            if isinstance(st.ops[0], ast.In) and isinstance(st.comparators[0], ast.Set):
-                ms = [_enum_member(e, "ServiceType") for e in st.comparators[0].elts]
-                if all(ms):
-                    if listed is not None:
-                        raise ExtractionError("more than one service-type set in _collect_attributes_from_ns_sliver")
-                    listed = ms
-            if isinstance(st.ops[0], ast.Eq) and _enum_member(st.comparators[0], "ServiceType"):
-                if exempt is not None:
-                    raise ExtractionError("more than one service-type equality in _collect_attributes_from_ns_sliver")
-                exempt = _enum_member(st.comparators[0], "ServiceType")
-        if (isinstance(st, ast.Assign) and len(st.targets) == 1 and isinstance(st.targets[0], ast.Attribute)
-                and st.targets[0].attr == "site" and _const_str(st.value)):
-            unknown = st.value.value
-    if listed is None or unknown is None or exempt is None:
-        raise ExtractionError("service-type set / unknown-site literal / exemption type not recognised")
-    if sorted(listed) != sorted(t for t, _ in lutrows):
-        # a listed type without a LUT row raises KeyError in the collector
-        raise ExtractionError("service types listed by site %s differ from NSTYPE_LUT keys %s" % (listed, [t for t, _ in lutrows]))
-    ns_hash = span_hash(src, fn)
-    topo_hash = span_hash(src, find_func(cls, "_collect_attributes_from_topo"))
-
-    # transform_to_pdp_request: CategoryId literals in order
-    fn = find_func(cls, "transform_to_pdp_request")
-    cats = []
-    for st in ast.walk(fn):
-        if isinstance(st, ast.Dict):
-            for k, v in zip(st.keys, st.values):
-                if _const_str(k) and k.value == "CategoryId" and _const_str(v):
-                    cats.append((v.lineno, v.col_offset, v.value))
-    cats = [c for _, _, c in sorted(cats)]
-    if len(cats) < 1:
-        raise ExtractionError("no CategoryId literals in transform_to_pdp_request")
-    pdp_hash = span_hash(src, fn)
-
-    ltree, lsrc = parse(LOGREL)
-    lcls = find_class(ltree, "LogCollector")
-    log_hash = {n: span_hash(lsrc, find_func(lcls, n)) for n in (
-        "_collect_attributes_from_node_sliver", "_collect_attributes_from_ns_sliver",
-        "_collect_attributes_from_component_sliver", "_collect_attributes_from_topo")}
-
-    return dict(order=order, consts=consts, rows=rows, lut=lutrows, init_type=init_type, switch=sw, listed=listed,
-                unknown=unknown, exempt=exempt, cats=cats,
-                hashes=dict(node_sliver=node_hash, ns_sliver=ns_hash, topo=topo_hash, pdp=pdp_hash, log=log_hash))
+    return dict(order=order, consts=consts, rows=rows, lut=[(t, k) for t, k, _ in lut], init_type=init_type, switch=sw,
+                listed=[t for t, _, _ in lut], unknown=unknown, exempt=exempt[0], cats=cats, type_key=type_names[0],
+                site_key=byval[site_id][0], ignored_constants=ignored, hashes=_hashes())
 
 
 def generate():
@@ -182,6 +361,11 @@ def generate():
     b.append("def switchType : String := %s\n" % lean_str(x["switch"][1]))
     b.append("/-- CategoryId literals of transform_to_pdp_request, in order -/")
     b.append("def categories : List String := " + lean_list(lean_str(c) for c in x["cats"]) + "\n")
+    if x["type_key"] != "RESOURCE_TYPE" or x["site_key"] != "RESOURCE_SITE":
+        # Model/Authz.lean names these two constructors
+        raise ExtractionError("the resource-type / common site attributes are %s / %s, the model names RESOURCE_TYPE / RESOURCE_SITE"
+                              % (x["type_key"], x["site_key"]))
     changed = emit("Authz", "\n".join(b))
     return {"keys": len(order), "rows": len(x["rows"]), "lut": x["lut"], "categories": len(x["cats"]),
-            "span_hashes": x["hashes"], "changed": changed}
+            "ignored_constants": x["ignored_constants"], "span_hashes": x["hashes"], "changed": changed,
+            "probes": {"port_pairs": len(PORT_PROBES) ** 2}}
